@@ -34,8 +34,8 @@ ASSUMPTIONS = [
 
 def budget(tier):
     if tier == 'thorough':
-        return {'seeds': 40000, 'wall': 840, 'chunk': 50}
-    return {'seeds': 4000, 'wall': 150, 'chunk': 20}
+        return {'seeds': 240000, 'wall': 900, 'chunk': 100}
+    return {'seeds': 16000, 'wall': 200, 'chunk': 50}
 
 
 class Gen:
